@@ -311,6 +311,41 @@ func C11(c *fw.Ctx) {
 					triples.add("root>" + wantKind)
 				}
 			}
+			// The tree is built a second time when macros are expanded. Without MACRO and PASTE the expansion changes nothing:
+			// the second tree (phase snapshot "expand", present when the phases up to there succeeded) must nest the same way.
+			hasMacro := false
+			for _, t := range toks {
+				if t.Kind == "MACRO" || t.Kind == "PASTE" {
+					hasMacro = true
+				}
+			}
+			if !hasMacro && res.Expand != nil {
+				var flat2 []flatNode
+				flatten(res.Expand, &flat2)
+				sort.Slice(flat2, func(a, b int) bool { return flat2[a].begin < flat2[b].begin })
+				if len(flat2) == len(v.Nodes) {
+					idx2 := map[int]int{}
+					for i, f := range flat2 {
+						idx2[f.begin] = i
+					}
+					for i, f := range flat2 {
+						got := -1
+						if f.parent >= 0 {
+							g, ok := idx2[f.parent]
+							if !ok {
+								got = -2
+							} else {
+								got = g
+							}
+						}
+						if got != v.Parents[i] {
+							c.Violate("context:expanded-tree-wrong-parent", fmt.Sprintf("sequence [%s]: after the expansion pass directive %d (%s) hangs under node %d, the context table puts it under %d", key, i, f.kind, got, v.Parents[i]), rp())
+							return
+						}
+					}
+					c.Inc("verdicts", "expanded-tree-compared", 1)
+				}
+			}
 			return
 		}
 		c.Inc("verdicts", "reference-rejects:"+v.Class, 1)
